@@ -104,9 +104,14 @@ def run(ctx):
         runs.append(("histories=3", {"MaxLen": 3, "NSlices": 1, "Slice": 0, "FirstFromR2": "TRUE"}, "num=12"))
     else:
         runs.append(("histories<=2", {"MaxLen": 2, "NSlices": 1, "Slice": 0}, None))
-        runs.append(("histories=3", {"MaxLen": 3, "NSlices": 1, "Slice": 0, "FirstFromR2": "TRUE"}, "num=500"))
+        runs.append(("histories=3", {"MaxLen": 3, "NSlices": 1, "Slice": 0, "FirstFromR2": "TRUE"}, "num=350"))
+        # four rules, builder and option rules mixed, the extended alphabet (letter-case variants of selectors, by_builder,
+        # by_name on builders, by_variant, generated_from_disjunction, rules on copies), common then language-specific
+        runs.append(("histories=4", {"MaxLen": 4, "NSlices": 1, "Slice": 0, "FirstFromR2": "TRUE", "Ext": "TRUE"}, "num=100"))
     # nested structs, every history of <=3 path-lengthening rules (exhaustive): paths of four segments with sibling leaves
     runs.append(("chains", {"MaxLen": 3, "NSlices": 1, "Slice": 0, "Chains": "TRUE", "FirstFromR2": "TRUE"}, None))
+    # argument wiring: two-argument options renamed with lists that swap / shift the old names (exhaustive, <=3 rules)
+    runs.append(("wiring", {"MaxLen": 3, "NSlices": 1, "Slice": 0, "Wiring": "TRUE", "FirstFromR2": "TRUE"}, None))
     runs.append(("no-option-builder", {"MaxLen": 1, "NSlices": 1, "Slice": 0, "WithMarker": "TRUE", "FirstFromR2": "TRUE"}, None))
     tot = {"steps": 0, "matched": 0, "traced": 0, "accepted": 0, "failed": 0, "inherited": 0, "skipped": 0, "rejected": 0,
            "yaml_runs": 0, "yaml_agree": 0, "modelfail": 0}
@@ -115,7 +120,7 @@ def run(ctx):
     samples, tlc_all, other_ex = [], [], {}
     for name, consts, sim in runs:
         r = ctx.run_tlc("BuildersMC", "BuildersMC17.cfg", workers=8 if not sim else 1, timeout=2400, constants=consts,
-                        simulate=sim, depth=4 if sim else None)
+                        simulate=sim, depth=consts["MaxLen"] + 1 if sim else None)
         tlc_all.append(r)
         tot["modelfail"] += sum(1 for _ in core.tagged_lines(r["out"], "MODELFAIL"))
         res = replay_and_judge(ctx, r["out"], name.replace("<", "le").replace("=", "eq"))
@@ -145,7 +150,7 @@ def run(ctx):
     for cls in ("exact", "folded", "none", "other"):
         if per_sel.get(cls, 0) == 0:
             raise core.Inconclusive("selector class never exercised: %s" % cls)
-    if not all(per_len.get(str(n), 0) > 0 for n in (1, 2, 3)):
+    if not all(per_len.get(str(n), 0) > 0 for n in ((1, 2, 3) if quick else (1, 2, 3, 4))):
         raise core.Inconclusive("history lengths exercised: %s" % per_len)
     for rn, k in sorted(drift1.items()):
         # diagnostic only (DESIGN 7.3): the documented effect is not itself a clause of C17
@@ -158,7 +163,7 @@ def run(ctx):
         "exhaustive": True,
         "evaluations": tot["steps"],
         "distinct_nontrivial": sum(per_rule_nt.values()),
-        "rule": "one evaluation = one history of 1..3 rule instances (a TLC state) replayed on the real rewriter in one ApplyTo from freshly "
+        "rule": "one evaluation = one history of 1..3 (thorough: 1..4) rule instances (a TLC state) replayed on the real rewriter in one ApplyTo from freshly "
                 "derived builders (direct rules; plus the same history loaded from YAML veneer files), judged on its last step "
                 "(real state before, rule, real state after); histories of 1 rule: every rule x selector (exact, case-differing, "
                 "non-matching, by_variant, generated_from_disjunction) x parameters under 'all' and under the language; 2 rules: the "
